@@ -76,7 +76,15 @@ def _attrs(ats):
 
 def render_tbody(tb, targets, rng, ind):
     out = []
-    for t in tb:
+    skip = set()
+    for i, t in enumerate(tb):
+        if i in skip:
+            continue
+        if (t[0] == "comp" and i + 1 < len(tb) and tb[i + 1][0] == "comp" and tb[i + 1][2] == t[2]
+                and rng.random() < 0.3):
+            skip.add(i + 1)
+            out.append(f"{ind}integer{_attrs(t[2])} :: {t[1]}, {tb[i + 1][1]}")
+            continue
         if t[0] == "tdefault":
             out.append(ind + t[1])
         elif t[0] == "comp":
@@ -110,8 +118,18 @@ def render_case(case, rng, docs=True):
     if rng.random() < 0.7:
         out.append("  implicit none")
     helper = [0]
-    for st in body:
+    skip = set()
+    for i, st in enumerate(body):
+        if i in skip:
+            continue
         k = st[0]
+        # `integer, private :: a, b` — one statement declaring two variables with the same attributes
+        if (k == "var" and not st[1] and i + 1 < len(body) and body[i + 1][0] == "var" and not body[i + 1][1]
+                and body[i + 1][3] == st[3] and rng.random() < 0.35):
+            skip.add(i + 1)
+            typ = rng.choice(["integer", "real", "logical"])
+            out.append(f"  {typ}{_attrs(st[3])} :: {st[2]}, {body[i + 1][2]}" + rng.choice(["", "(2)"]))
+            continue
         if k == "default":
             out.append("  " + rng.choice([st[1], st[1].upper(), st[1].capitalize()]))
         elif k == "access":
